@@ -6,16 +6,16 @@
    number), the text a followed by a delimiter (blank, newline, closing paren or bracket) appends exactly
    the tokens tks (plus the delimiter's own token) and leaves the lexer between tokens again.
 
-   Oracles: is_print (strconv.IsPrint, universally quantified), the float formatter / ParseFloat
-   (floats are outside [dat]: see read_print_float_partial below).
+   Oracles: is_print (strconv.IsPrint, universally quantified); the DIGITS strconv.FormatFloat produces for a
+   finite float (structured token ftok; contract ftok_ok: digits where digits belong, an exponent exactly in the
+   e format) and the success of ParseFloat on the printed text (float_ok, Reader.v); everything else about
+   floats (sign, point, the .0 rule, e+NN, +Inf -Inf NaN, how it lexes and parses) is modelled and proved.
 
-   NOT proved here, established by the correspondence run only (bounded): that a printed FLOAT
-   re-lexes to one TFloat token (the FloatRegex automaton), the classification of hex / octal / binary /
-   ULL spellings by DecodeAtom (exhaustive to length 4/5 over the numeric alphabet), hashes (evaluated
-   route: needs the evaluator). *)
+   NOT proved: the evaluated route for hashes (the reader gives the list (hash k: v ...); that its
+   evaluation rebuilds the hash needs the evaluator and MakeHash, outside this model: correspondence only). *)
 From Coq Require Import ZArith List Bool.
 From ZV Require Import Model.Regex Generated.LexTables Model.Lexer Model.Reader Model.Printer
-  Proofs.PrinterLex Proofs.PrinterProofs.
+  Proofs.PrinterLex Proofs.RegexSem Proofs.Classify Proofs.PrinterProofs.
 Import ListNotations.
 Open Scope Z_scope.
 
@@ -71,10 +71,99 @@ Theorem read_print_data : forall is_print v fuel, dat is_print false v -> (vsize
 Proof. exact PrinterProofs.read_print_data. Qed.
 Print Assumptions read_print_data.
 
-(* read_print_float_partial — full statement (NOT proved): for every finite float (bits, sci) whose
-   formatter digits are t, [lexes_to (float_text (FFin t) sci) [mkTok TFloat (float_text (FFin t) sci)]]
-   and, under the contract parse_float (float_text (FFin t) sci) = Some bits, the token converts to bits.
-   Proved part: the conversion of a float token is ParseFloat of its text without underscores: *)
+(* ---- floats: every text the printer can emit for a float re-lexes to one TFloat token (the sign of an
+   exponent goes through the look-back ring) and is parsed back to the float node with the same text and flag ---- *)
+Theorem read_print_float : forall t sci, ftok_ok t sci ->
+  lexes_to (float_text (FFin t) sci) [mkTok TFloat (float_text (FFin t) sci)].
+Proof. exact float_fin_lexes. Qed.
+Print Assumptions read_print_float.
+
+Theorem read_print_float_value : forall is_print b sci c, E is_print (VFloat b sci c).
+Proof. exact E_float. Qed.
+Print Assumptions read_print_float_value.
+
+(* +Inf / -Inf lex as the operator symbol and the word Inf, which the parser glues back; NaN is one word *)
+Theorem read_print_inf : forall neg : bool,
+  lexes_to (if neg then str_mInf else str_pInf) [mkTok TSymbol [if neg then 45 else 43]; mkTok TFloat str_Inf].
+Proof. exact inf_lexes. Qed.
+Print Assumptions read_print_inf.
+
+Theorem read_print_nan : lexes_to str_NaN [mkTok TFloat str_NaN].
+Proof. exact nan_lexes. Qed.
+Print Assumptions read_print_nan.
+
+(* ---- DecodeAtom classifies every well-formed spelling (positive facts by the completeness of the derivative
+   matcher w.r.t. a derivation system, negative facts by closed-state certificates) ---- *)
+Theorem matcher_complete : forall w f r, D f true r w -> matches_from f r w = true.
+Proof. exact D_complete. Qed.
+Print Assumptions matcher_complete.
+
+Theorem classify_float_A : forall sg c ip fp, sign_ok sg -> digit c -> Forall dig_ ip -> Forall dig_ fp ->
+  decode_atom (formA sg c ip fp) = Some (mkTok TFloat (formA sg c ip fp)).
+Proof. exact Classify.classify_float_A. Qed.
+Print Assumptions classify_float_A.
+
+Theorem classify_float_B : forall sg c fp, sign_ok sg -> digit c -> Forall dig_ fp ->
+  decode_atom (formB sg c fp) = Some (mkTok TFloat (formB sg c fp)).
+Proof. exact Classify.classify_float_B. Qed.
+Print Assumptions classify_float_B.
+
+Theorem classify_float_C : forall sg c ip fr e esg x xp, sign_ok sg -> digit c -> Forall dig_ ip -> frac_ok fr ->
+  (e = 101 \/ e = 69) -> esign_ok esg -> digit x -> Forall dig_ xp ->
+  decode_atom (formC sg c ip fr e esg x xp) = Some (mkTok TFloat (formC sg c ip fr e esg x xp)).
+Proof. exact Classify.classify_float_C. Qed.
+Print Assumptions classify_float_C.
+
+Theorem float_exponent_lexes : forall sg c ip fr e esg x xp, sign_ok sg -> digit c -> Forall dig_ ip -> frac_ok fr ->
+  (e = 101 \/ e = 69) -> esign_ok esg -> digit x -> Forall dig_ xp ->
+  lexes_to (formC sg c ip fr e esg x xp) [mkTok TFloat (formC sg c ip fr e esg x xp)].
+Proof. exact float_C_lexes. Qed.
+Print Assumptions float_exponent_lexes.
+
+Theorem float_spelling_denotes_A : forall pf sg c ip fp b sci, sign_ok sg -> digit c -> Forall dig_ ip -> Forall dig_ fp ->
+  decode_atom (formA sg c ip fp) = Some (mkTok TFloat (formA sg c ip fp)) /\
+  lexes_to (formA sg c ip fp) [mkTok TFloat (formA sg c ip fp)] /\
+  (sg = [] -> atom_value pf (mkTok TFloat (formA sg c ip fp)) = Some (RFloat sci (Some b) (formA sg c ip fp)) ->
+   pf (remove_z 95 (formA sg c ip fp)) = Some b).
+Proof. exact PrinterProofs.float_spelling_denotes_A. Qed.
+Print Assumptions float_spelling_denotes_A.
+
+Theorem hex_spelling_denotes : forall pf h hs, hexd h -> Forall hexd hs ->
+  decode_atom (48 :: 120 :: h :: hs) = Some (mkTok THex (h :: hs)) /\
+  (forall v, atom_value pf (mkTok THex (h :: hs)) = Some (RInt v) ->
+             v = pos_value 16 (map digit_of (h :: hs)) /\ 0 <= v < 2 ^ 63).
+Proof. exact PrinterProofs.hex_spelling_denotes. Qed.
+Print Assumptions hex_spelling_denotes.
+
+Theorem oct_spelling_denotes : forall pf h hs, octd h -> Forall octd hs ->
+  decode_atom (48 :: 111 :: h :: hs) = Some (mkTok TOct (h :: hs)) /\
+  (forall v, atom_value pf (mkTok TOct (h :: hs)) = Some (RInt v) ->
+             v = pos_value 8 (map digit_of (h :: hs)) /\ 0 <= v < 2 ^ 63).
+Proof. exact PrinterProofs.oct_spelling_denotes. Qed.
+Print Assumptions oct_spelling_denotes.
+
+Theorem bin_spelling_denotes : forall pf h hs, bind h -> Forall bind hs ->
+  decode_atom (48 :: 98 :: h :: hs) = Some (mkTok TBinary (h :: hs)) /\
+  (forall v, atom_value pf (mkTok TBinary (h :: hs)) = Some (RInt v) ->
+             v = pos_value 2 (map digit_of (h :: hs)) /\ 0 <= v < 2 ^ 63).
+Proof. exact PrinterProofs.bin_spelling_denotes. Qed.
+Print Assumptions bin_spelling_denotes.
+
+Theorem dec_spelling_denotes : forall pf (neg : bool) c ip, digit c -> Forall dig_ ip ->
+  decode_atom (spell NDec neg (c :: ip)) = Some (mkTok TDecimal (spell NDec neg (c :: ip))) /\
+  (forall v, atom_value pf (mkTok TDecimal (spell NDec neg (c :: ip))) = Some (RInt v) ->
+             v = math_value NDec neg (c :: ip) /\ - 2 ^ 63 <= v < 2 ^ 63).
+Proof. exact PrinterProofs.dec_spelling_denotes. Qed.
+Print Assumptions dec_spelling_denotes.
+
+Theorem ull_spelling_denotes : forall pf n h hs, (n = NUDec \/ n = NUHex \/ n = NUOct) -> hexd h -> Forall hexd hs ->
+  (n = NUDec -> starts_with [48; 111] (h :: hs) = false /\ starts_with [48; 120] (h :: hs) = false) ->
+  decode_atom (spell n false (h :: hs)) = Some (mkTok TUint64 (spell n false (h :: hs))) /\
+  (forall v, atom_value pf (mkTok TUint64 (spell n false (h :: hs))) = Some (RUint v) ->
+             v = pos_value (notation_base n) (map digit_of (h :: hs)) /\ 0 <= v < 2 ^ 64).
+Proof. exact PrinterProofs.ull_spelling_denotes. Qed.
+Print Assumptions ull_spelling_denotes.
+
 Theorem literal_denotes_float : forall pf text b sci,
   inf_word text = false -> no_sign text -> list_eqb text str_NaN = false ->
   atom_value pf (mkTok TFloat text) = Some (RFloat sci (Some b) text) ->
@@ -162,6 +251,27 @@ Proof. vm_compute. reflexivity. Qed.
 
 Example sample_text : print ascii_print (VPair (VInt (-5)) (VArr [VChar 233; VStr [Rune 10]]))
   = [40; 45; 53; 32; 92; 32; 91; 39; 92; 117; 48; 48; 101; 57; 39; 32; 34; 92; 110; 34; 93; 41].
+Proof. vm_compute. reflexivity. Qed.
+
+(* floats inside data: -0.0 (the .0 rule), 1e+21 in the e format, -Inf, NaN *)
+Definition fsample : value :=
+  VArr [VFloat 9223372036854775808 false (FFin (mkF true [48] [] None));
+        VFloat 4921056587992461136 true (FFin (mkF false [49] [] (Some (false, [50; 49]))));
+        VFloat 18442240474082181120 false (FInf true); VFloat 0 false FNaN].
+
+Example fsample_text : print ascii_print fsample =
+  [91; 45; 48; 46; 48; 32; 49; 101; 43; 50; 49; 32; 45; 73; 110; 102; 32; 78; 97; 78; 93].
+Proof. vm_compute. reflexivity. Qed.
+
+Example fsample_reads_back :
+  observe (parse_whole true false 40 (print ascii_print fsample)) = (StDone, [to_sexp fsample]).
+Proof. vm_compute. reflexivity. Qed.
+
+(* a hash read as data is the list (hash a: 1 "b" : 2) — the evaluated route is outside the model *)
+Example hash_reads_as_list :
+  observe (parse_whole true false 40 (print ascii_print (VHash [(VSym [97], VInt 1); (VStr [Rune 98], VInt 2)]))) =
+  (StDone, [SPair (sym str_hash) (SPair (SSym true false [97]) (SPair (SInt 1)
+            (SPair (SStr false [98]) (SPair (sym [58]) (SPair (SInt 2) SNull)))))]).
 Proof. vm_compute. reflexivity. Qed.
 
 Example sym_ok_foo : sym_ok [102; 111; 111; 36].
